@@ -423,6 +423,8 @@ static Fate gen_fate(Sim *S, int stream, uint64_t ord, uint64_t now, const Dgram
 			else if (c.p_rd_altport > 0 && S->U("fate.rdport", k2) < c.p_rd_altport) r.altport = true;
 			if (S->U("fate.rdtype", k2) < c.p_rd_retype) { static const uint16_t ty[] = {10, 16, 5, 15, 33, 1, 65399}; r.retype = ty[S->D("fate.rdtypev", k2) % 7]; }
 			f.redeliv.push_back(r);
+			// the relay repeats its copy once more, byte for byte (same id, same spelling, same address)
+			if (c.p_rd_again > 0 && S->U("fate.rdagain", k2) < c.p_rd_again) { Redeliv r2 = r; r2.delay = r.delay + S->R("fate.rdagaind", k2, 500, 600000); f.redeliv.push_back(r2); S->count("fault.redeliver.copy_repeated"); }
 		}
 	}
 	if (c.hold_cmd && d.data.size() > 14 && (d.data[13] | 0x20) == c.hold_cmd && (d.dst.port == 53 || d.src.port == 53)) {
